@@ -157,6 +157,8 @@ pub struct World {
     pub ready_script: Vec<ReadyAns>,
     /// if set, a gate is resolved at creation with the scripted outcome (immediate inner service)
     pub immediate: Vec<GOut>,
+    /// every inner call resolves at once with this outcome (immediate inner service)
+    pub auto: Option<GOut>,
     pub clock0: tokio::time::Instant,
 }
 impl World {
@@ -169,6 +171,7 @@ impl World {
             ready: vec![false],
             ready_script: vec![],
             immediate: vec![],
+            auto: None,
             clock0: tokio::time::Instant::now(),
         }
     }
@@ -241,7 +244,13 @@ impl tower::Service<Req> for Inner {
             g.ready[inst] = false;
         }
         let t = g.clock0.elapsed().as_millis() as u64;
-        let state = if g.immediate.is_empty() { GState::Pending } else { GState::Resolved(g.immediate.remove(0)) };
+        let state = if !g.immediate.is_empty() {
+            GState::Resolved(g.immediate.remove(0))
+        } else if let Some(a) = g.auto.clone() {
+            GState::Resolved(a)
+        } else {
+            GState::Pending
+        };
         g.log.push(IEv::Start { i, c: req.id, key: req.key, inst });
         g.gates.push(Gate { req, inst, state, waker: None, started_at: t });
         GateFut { w: self.w.clone(), i, finished: false }
@@ -604,7 +613,7 @@ impl Sim {
     pub async fn op(&mut self, name: &str, res: Value, extra: Obj) {
         let mut m = Sim::ev("op");
         m.insert("name".into(), json!(name));
-        m.insert("res".into(), res);
+        m.insert("res".into(), if res.is_null() { json!("none") } else { res });   // TLC's Json module has no null
         for (k, v) in extra {
             m.insert(k, v);
         }
